@@ -282,6 +282,25 @@ func (v *fnVC) alloc(i *ssa.Alloc, st *State) {
 	a := v.newRef(i, st)
 	elem := i.Type().Underlying().(*types.Pointer).Elem()
 	v.storeWhole(a, elem, v.e.zero(elem), st)
+	// ghost heaps keyed by a pointer to this type start at the zero value (e.g. an empty strings.Builder)
+	for _, name := range sortedKeys(v.w.specs.Ghosts) {
+		g := v.w.specs.Ghosts[name]
+		if !g.Heap || !strings.HasPrefix(g.Type, "*") {
+			continue
+		}
+		x := &Ex{enc: v.e, w: v.w, pkg: v.fn.Pkg.Pkg, vars: map[string]*T{}, lets: map[string]string{}, cur: st, old: st}
+		func() {
+			defer func() { _ = recover() }()
+			_, kt := x.typeFromString(g.Type)
+			if kt == nil || !types.Identical(kt, i.Type()) {
+				return
+			}
+			ks, _ := x.typeFromString(g.Type)
+			vs, vt := x.typeFromString(g.Val)
+			h := st.get("G$"+name, arrSort(ks, vs))
+			st.set("G$"+name, sto(h, a, v.e.zeroOfSort(vs, vt)))
+		}()
+	}
 }
 
 // storeWhole writes a complete value of type elem at reference a.
@@ -583,6 +602,7 @@ func (v *fnVC) binop(i *ssa.BinOp, st *State) *T {
 			r := e.concat(a, b)
 			r = e.define("cat", r)
 			e.assume(mk(sapp("=", sapp("slen", r.S), sapp("bvadd", sapp("slen", a.S), sapp("slen", b.S))), sBool))
+			e.assume(mk(fmt.Sprintf("(forall ((i (_ BitVec 64))) (! (=> (and (bvsle #x0000000000000000 i) (bvslt i (slen %s))) (= (sat %s i) (ite (bvslt i (slen %s)) (sat %s i) (sat %s (bvsub i (slen %s)))))) :pattern ((sat %s i))))", r.S, r.S, a.S, a.S, b.S, a.S, r.S), sBool))
 			r.Op, r.Args = "sconcat", []*T{a, b}
 			return r
 		case token.EQL:
